@@ -17,6 +17,7 @@ import (
 	"encoding"
 	"encoding/binary"
 	"fmt"
+	"io"
 	"net"
 	"reflect"
 )
@@ -33,10 +34,29 @@ func (c *conn2) Handshake() error {
 	return nil
 }
 
+// readFull reads exactly len(buff) bytes: a message may arrive in any number of
+// transport records, and a single Read returns the bytes of at most two of them.
+// (The transport's Read can report a byte count together with an error, so
+// io.ReadFull, which trusts the count first, cannot be used here.)
+func (c *conn2) readFull(buff []byte) error {
+	for n := 0; n < len(buff); {
+		m, err := c.Conn.Read(buff[n:])
+		if err == io.EOF && n > 0 {
+			return io.ErrUnexpectedEOF
+		} else if err != nil {
+			return err
+		}
+
+		n += m
+	}
+
+	return nil
+}
+
 func (c *conn2) receive() (interface{}, error) {
 	buff := make([]byte, 1)
 
-	if _, err := c.Conn.Read(buff); err != nil {
+	if err := c.readFull(buff); err != nil {
 		return nil, err
 	}
 
@@ -65,7 +85,9 @@ func (c *conn2) receive() (interface{}, error) {
 
 	buff = make([]byte, 2)
 
-	if _, err := c.Conn.Read(buff); err != nil {
+	if err := c.readFull(buff); err == io.EOF {
+		return nil, io.ErrUnexpectedEOF
+	} else if err != nil {
 		return nil, err
 	}
 
@@ -73,7 +95,9 @@ func (c *conn2) receive() (interface{}, error) {
 
 	buff = make([]byte, size)
 
-	if _, err := c.Conn.Read(buff); err != nil {
+	if err := c.readFull(buff); err == io.EOF {
+		return nil, io.ErrUnexpectedEOF
+	} else if err != nil {
 		return nil, err
 	}
 
